@@ -2,6 +2,7 @@
 package c19
 
 import (
+	"strings"
 	"bytes"
 	"crypto/rand"
 	"errors"
@@ -640,4 +641,80 @@ func TestEntropyFaults(t *testing.T) {
 	P.EvalN(n)
 	P.AddDistinct(n)
 	P.SetExtra("entropy_fault_runs", n)
+}
+
+// ---------- concurrent use with different keys, failures included ----------
+
+// TestConcurrentKeys: several goroutines, each with a key of its own, add encrypted values and read them back, while
+// they also make the reads that must FAIL (another goroutine's key, a tampered ciphertext, a bad key) - a failed read is
+// an ordinary event, and nothing it leaves behind may reach the next call. Every read with the right key returns the
+// value, every other read fails, whatever runs at the same time. Race-detector build.
+func TestConcurrentKeys(t *testing.T) {
+	ctx := &h.Ctx{P: P, T: t}
+	const G = 8
+	rounds := h.N(300, 6000)
+	keysOf := make([][]byte, G)
+	for g := range keysOf {
+		keysOf[g] = bytes.Repeat([]byte{byte(0x11 * (g + 1))}, 32)
+		keysOf[g][31] = byte(g)
+	}
+	var mu sync.Mutex
+	var bad []string
+	report := func(f string, a ...any) {
+		mu.Lock()
+		if len(bad) < 6 {
+			bad = append(bad, fmt.Sprintf(f, a...))
+		}
+		mu.Unlock()
+	}
+	var wg sync.WaitGroup
+	for g := 0; g < G; g++ {
+		wg.Add(1)
+		go func(g int) {
+			defer wg.Done()
+			mine, other := keysOf[g], keysOf[(g+1)%G]
+			for r := 0; r < rounds; r++ {
+				plain := fmt.Sprintf("goroutine %d round %d: attack at dawn", g, r)
+				m := meta.NewMeta()
+				if err := m.AddEncrypted("k", plain, mine); err != nil {
+					report("goroutine %d: AddEncrypted with its own valid key failed: %v", g, err)
+					return
+				}
+				// the reads that must fail
+				if s, err := m.GetEncryptedString("k", other); err == nil {
+					report("goroutine %d round %d: value read with ANOTHER goroutine's key (intact=%v)", g, r, s == plain)
+				}
+				if r%3 == 0 {
+					stored, _ := m.GetBytes("k")
+					tam := append([]byte{}, stored...)
+					tam[len(tam)-1] ^= 1
+					m2 := meta.NewMeta()
+					_ = m2.Add("k", tam)
+					if _, err := m2.GetEncryptedString("k", mine); err == nil {
+						report("goroutine %d round %d: tampered ciphertext accepted", g, r)
+					}
+				}
+				if r%5 == 0 {
+					if _, err := m.GetEncryptedString("k", make([]byte, 32)); err == nil {
+						report("goroutine %d round %d: value read with the all-zero key", g, r)
+					}
+					if _, err := m.GetEncryptedString("k", mine[:31]); err == nil {
+						report("goroutine %d round %d: value read with a 31-byte key", g, r)
+					}
+				}
+				// the read that must succeed
+				got, err := m.GetEncryptedString("k", mine)
+				if err != nil || got != plain {
+					report("goroutine %d round %d: value NOT readable with the key it was sealed with (%v, %q) while other goroutines work with other keys", g, r, err, got)
+				}
+			}
+		}(g)
+	}
+	wg.Wait()
+	if len(bad) > 0 {
+		ctx.Fail("C19/concurrent/keys-mixed-up", "%s", strings.Join(bad, " | "))
+	}
+	P.EvalN(G * rounds)
+	P.AddDistinct(G * rounds)
+	P.SetExtra("concurrent_key_rounds", G*rounds)
 }
